@@ -189,8 +189,13 @@ pub fn flat_to_packet(ptype: u8, flat: &Flat) -> Packet {
     p
 }
 
+/// When set, a full projection of the engine state ("St" event) is recorded after every entry
+/// point call, and entry-point events carry what EngineTrace.tla needs to replay them.
+pub static STATE_EVENTS: std::sync::atomic::AtomicBool = std::sync::atomic::AtomicBool::new(false);
+
 #[derive(Clone, Debug)]
 struct OpInfo {
+    eid: u64,
     kind: String,
     qos: u8,
     entries: usize,
@@ -359,6 +364,8 @@ impl<'a> Sim<'a> {
             ("rejoin", json!(cfg.rejoin)), ("resolver", json!(cfg.resolver)), ("cid", json!(cfg.cid)), ("faithful", json!(cfg.faithful as u8)),
             ("tamIn", json!(if cfg.tam_in < 0 { 0 } else { cfg.tam_in })), ("sei", json!(if cfg.sei < 0 { 0 } else { cfg.sei })),
             ("ohash", json!(ohash)), ("unit", json!(1000)),
+            ("resolverKind", json!(if cfg.resolver == "manual" { "manual" } else if cfg.resolver.starts_with("lru:") { "lru" } else { "null" })),
+            ("lruMax", json!(cfg.resolver.strip_prefix("lru:").and_then(|n| n.parse::<u64>().ok()).unwrap_or(0))),
         ]);
         let cap = cfg.cap.max(4);
         let tam_in = cfg.tam_in;
@@ -393,6 +400,10 @@ impl<'a> Sim<'a> {
 
     fn completions(&mut self, during: &str) {
         let list = match catch_unwind(AssertUnwindSafe(|| self.engine.drain_completions())) { Ok(l) => l, Err(_) => return };
+        self.emit_completions(list, during);
+    }
+
+    fn emit_completions(&mut self, list: Vec<Completion>, during: &str) {
         for c in list {
             let (ok, err, ack, pid, codes, rcode) = match &c.outcome {
                 Outcome::Qos0 => (1, "", "", 0u64, 0usize, 0u64),
@@ -534,11 +545,45 @@ impl<'a> Sim<'a> {
             self.call_marks.push((self.wire.len(), self.t));
         }
         let (state, pwc) = (self.state(), self.snapshot_pwc());
-        self.emit("Service", vec![("cap", json!(self.buf.capacity())), ("pre", json!(pre)), ("out", json!(out)), ("result", json!(res_str(&r))), ("state", json!(state)), ("pwc", json!(pwc as u8))]);
-        self.completions("service");
+        let mut fields = vec![("cap", json!(self.buf.capacity())), ("pre", json!(pre)), ("out", json!(out)), ("result", json!(res_str(&r))), ("state", json!(state)), ("pwc", json!(pwc as u8))];
+        let list = match catch_unwind(AssertUnwindSafe(|| self.engine.drain_completions())) { Ok(l) => l, Err(_) => Vec::new() };
+        if self.state_events() {
+            // what EngineTrace needs to replay this call: how many packets were completed by it, whether one was
+            // left partially encoded, and which operations failed last-chance validation
+            let nfull = rc::frame(&self.wire[self.wire_parsed..]).frames.len();
+            let cur = match catch_unwind(AssertUnwindSafe(|| self.engine.snapshot().current_operation)) { Ok(c) => c, Err(_) => None };
+            let vfail: Vec<u64> = list.iter().filter(|c| matches!(&c.outcome, Outcome::Err(e) if err_kind(e) == "PacketValidationFailure")).filter_map(|c| self.ops.get(&c.key).map(|o| o.eid)).collect();
+            fields.push(("nfull", json!(nfull)));
+            fields.push(("partial", json!((cur.is_some() && r.is_ok()) as u8)));
+            fields.push(("vfail", json!(vfail)));
+        }
+        self.emit("Service", fields);
+        self.emit_completions(list, "service");
         self.parse_wire();
         self.surfaced();
+        self.emit_state();
         r.is_ok()
+    }
+
+    fn state_events(&self) -> bool { STATE_EVENTS.load(std::sync::atomic::Ordering::Relaxed) }
+
+    /// Full projection of the engine state after an entry point call (for EngineTrace.tla)
+    fn emit_state(&mut self) {
+        if !self.state_events() || self.dead { return; }
+        let Ok(s) = catch_unwind(AssertUnwindSafe(|| self.engine.snapshot())) else { return; };
+        let opt = |x: Option<u64>| x.map(|v| json!(clamp31(v))).unwrap_or(json!(-1));
+        let ops: Vec<Value> = s.operations.iter().map(|o| json!([o.id, o.ptype, o.qos, o.dup as u8, o.packet_id.unwrap_or(0), o.has_pubrel as u8, o.user as u8, o.slow_start, o.interruptions])).collect();
+        let pairs = |v: &Vec<(u16, u64)>| -> Vec<Value> { v.iter().map(|(a, b)| json!([a, b])).collect() };
+        self.emit("St", vec![
+            ("state", json!(s.state)), ("pwc", json!(s.pending_write_completion as u8)), ("ops", json!(ops)),
+            ("userQ", json!(s.user_queue)), ("resubQ", json!(s.resubmit_queue)), ("hpQ", json!(s.high_priority_queue)),
+            ("cur", json!(s.current_operation.map(|x| x as i64).unwrap_or(-1))), ("qos2In", json!(s.qos2_incoming)),
+            ("alloc", json!(pairs(&s.allocated_packet_ids))), ("pendPub", json!(pairs(&s.pending_publish))), ("pendNon", json!(pairs(&s.pending_non_publish))),
+            ("pwcOps", json!(s.pending_write_completion_operations)),
+            ("tmos", json!(s.ack_timeouts.iter().map(|(id, at)| json!([id, clamp31(*at)])).collect::<Vec<Value>>())),
+            ("nextOp", json!(s.next_operation_id)), ("nextPid", json!(s.next_packet_id)), ("hasConn", json!(s.has_connected_successfully as u8)),
+            ("nextPing", opt(s.next_ping_ms)), ("pingTmo", opt(s.ping_timeout_ms)), ("connackTmo", opt(s.connack_timeout_ms)), ("slow", json!(s.slow_start_ack_count)),
+        ]);
     }
 
     fn snapshot_pwc(&mut self) -> bool {
@@ -555,6 +600,7 @@ impl<'a> Sim<'a> {
         self.emit("WriteDone", vec![("result", json!(res_str(&r))), ("state", json!(state))]);
         self.completions("writedone");
         self.surfaced();
+        self.emit_state();
         r.is_ok()
     }
 
@@ -614,11 +660,13 @@ impl<'a> Sim<'a> {
             ("subid", gb("subscription_identifiers_available")), ("shared", gb("shared_subscriptions_available")),
             ("acid", json!(p.and_then(|p| p.s("assigned_client_identifier")).unwrap_or(""))), ("sei", g("session_expiry_interval", -1)),
             ("qos", g("qos", 0)), ("dup", json!(p.map(|p| p.flag("duplicate") as u8).unwrap_or(0))), ("topic", json!(p.and_then(|p| p.s("topic")).unwrap_or(""))),
-            ("alias", g("topic_alias", 0)), ("hash", json!(p.map(|p| rc::hash31(&[p.bytes("payload").unwrap_or(&[])])).unwrap_or(0))),
+            ("alias", g("topic_alias", 0)), ("aliasp", json!(p.map(|p| p.u("topic_alias").is_some() as u8).unwrap_or(0))), ("decoded", json!(p.is_some() as u8)),
+            ("hash", json!(p.map(|p| rc::hash31(&[p.bytes("payload").unwrap_or(&[])])).unwrap_or(0))),
             ("result", json!(res_str(&result))), ("state", json!(state)), ("legal", json!(legal as u8)), ("alllegal", json!(self.b.all_legal as u8)), ("chunks", json!(cuts.len())),
         ]);
         self.completions("rx");
         self.emit_surfaced(all_surfaced);
+        self.emit_state();
         result.is_ok()
     }
 
@@ -663,9 +711,10 @@ impl<'a> Sim<'a> {
                 hash = 0; let _ = rp;
                 verdict = outbound(&UserPacket::Publish(packet.clone()));
                 if verdict.is_ok() {
-                    self.ops.insert(key, OpInfo { kind: kind.into(), qos, entries: 0, resolved: false });
+                    self.ops.insert(key, OpInfo { eid: 0, kind: kind.into(), qos, entries: 0, resolved: false });
                     self.emit_submit(key, kind, qos, topic, alias, 0, tmo, retain, hash, len, state_before, variant);
-                    self.guarded("submit", |e| e.publish(t, key, packet, if alias > 0 { Some(alias) } else { None }, tmo_opt));
+                    let eid = self.guarded("submit", |e| e.publish(t, key, packet, if alias > 0 { Some(alias) } else { None }, tmo_opt));
+                    self.note_eid(key, eid);
                 }
             }
             "sub" => {
@@ -687,9 +736,10 @@ impl<'a> Sim<'a> {
                 hash = 0; len = 0;
                 verdict = outbound(&UserPacket::Subscribe(packet.clone()));
                 if verdict.is_ok() {
-                    self.ops.insert(key, OpInfo { kind: kind.into(), qos, entries, resolved: false });
+                    self.ops.insert(key, OpInfo { eid: 0, kind: kind.into(), qos, entries, resolved: false });
                     self.emit_submit(key, kind, qos, "", 0, entries, tmo, false, hash, len, state_before, variant);
-                    self.guarded("submit", |e| e.subscribe(t, key, packet, tmo_opt));
+                    let eid = self.guarded("submit", |e| e.subscribe(t, key, packet, tmo_opt));
+                    self.note_eid(key, eid);
                 }
             }
             _ => {
@@ -702,9 +752,10 @@ impl<'a> Sim<'a> {
                 hash = 0; len = 0;
                 verdict = outbound(&UserPacket::Unsubscribe(packet.clone()));
                 if verdict.is_ok() {
-                    self.ops.insert(key, OpInfo { kind: "unsub".into(), qos: 0, entries, resolved: false });
+                    self.ops.insert(key, OpInfo { eid: 0, kind: "unsub".into(), qos: 0, entries, resolved: false });
                     self.emit_submit(key, "unsub", 0, "", 0, entries, tmo, false, hash, len, state_before, variant);
-                    self.guarded("submit", |e| e.unsubscribe(t, key, packet, tmo_opt));
+                    let eid = self.guarded("submit", |e| e.unsubscribe(t, key, packet, tmo_opt));
+                    self.note_eid(key, eid);
                 }
             }
         }
@@ -712,6 +763,12 @@ impl<'a> Sim<'a> {
             self.emit("Reject", vec![("op", json!(key)), ("kind", json!(kind)), ("why", json!(err_kind(&e))), ("variant", json!(variant))]);
         }
         self.completions("submit");
+        self.emit_state();
+    }
+
+    fn note_eid(&mut self, key: u64, eid: Option<u64>) {
+        if let (Some(eid), Some(info)) = (eid, self.ops.get_mut(&key)) { info.eid = eid; }
+        if self.state_events() { if let Some(eid) = eid { self.emit("Eid", vec![("op", json!(key)), ("eid", json!(eid))]); } }
     }
 
     #[allow(clippy::too_many_arguments)]
@@ -731,16 +788,37 @@ impl<'a> Sim<'a> {
         let (conn, state) = (self.b.conn, self.state());
         self.emit("Open", vec![("conn", json!(conn)), ("deadline", json!(clamp31(t + deadline))), ("result", json!(res_str(&r))), ("state", json!(state))]);
         self.completions("open");
+        self.emit_state();
     }
 
     fn close(&mut self) {
         self.flush_partial();
         let t = self.t;
+        let before = if self.state_events() { catch_unwind(AssertUnwindSafe(|| self.engine.snapshot())).ok() } else { None };
         let Some(r) = self.guarded("connection_closed", |e| e.connection_closed(t)) else { return; };
         self.b.open = false; self.b.owed.clear(); self.buf.clear();
         let (conn, state) = (self.b.conn, self.state());
-        self.emit("Close", vec![("conn", json!(conn)), ("result", json!(res_str(&r))), ("state", json!(state))]);
+        let mut fields = vec![("conn", json!(conn)), ("result", json!(res_str(&r))), ("state", json!(state))];
+        if let Some(pre) = before {
+            // the HashMap iteration orders of the two pending tables, recovered from where their operations ended up
+            if let Ok(post) = catch_unwind(AssertUnwindSafe(|| self.engine.snapshot())) {
+                let pubs: Vec<u64> = pre.pending_publish.iter().map(|(_, id)| *id).collect();
+                let nons: Vec<u64> = pre.pending_non_publish.iter().map(|(_, id)| *id).collect();
+                let mut po: Vec<u64> = Vec::new();
+                let tail_start = post.resubmit_queue.len().saturating_sub(pubs.len());
+                for id in post.resubmit_queue[tail_start..].iter() { if pubs.contains(id) && !po.contains(id) { po.push(*id); } }
+                for id in pubs.iter() { if !po.contains(id) { po.push(*id); } }
+                let mut no: Vec<u64> = Vec::new();
+                for id in post.user_queue.iter() { if nons.contains(id) && !no.contains(id) { no.push(*id); } }
+                no.reverse();
+                for id in nons.iter() { if !no.contains(id) { no.push(*id); } }
+                fields.push(("po", json!(po)));
+                fields.push(("no", json!(no)));
+            }
+        }
+        self.emit("Close", fields);
         self.completions("close");
+        self.emit_state();
     }
 
     fn reset(&mut self) {
@@ -751,6 +829,7 @@ impl<'a> Sim<'a> {
         let state = self.state();
         self.emit("Reset", vec![("state", json!(state))]);
         self.completions("reset");
+        self.emit_state();
         self.snapshot(true);
     }
 
@@ -948,7 +1027,7 @@ impl<'a> Sim<'a> {
         if self.dead { return; }
         match s {
             Step::Submit { kind, qos, topic, tmo, retain, size, alias, entries, variant } => self.submit(kind, *qos, topic, *tmo, *retain, *size, *alias, *entries, variant),
-            Step::Disconnect {} => { let t = self.t; self.emit("UserDisconnect", vec![]); self.guarded("disconnect", |e| e.disconnect(t, DisconnectPacket::builder().build())); self.completions("submit"); }
+            Step::Disconnect {} => { let t = self.t; self.emit("UserDisconnect", vec![]); self.guarded("disconnect", |e| e.disconnect(t, DisconnectPacket::builder().build())); self.completions("submit"); self.emit_state(); }
             Step::Open { deadline } => self.open(*deadline),
             Step::Close {} => self.close(),
             Step::Reset {} => self.reset(),
@@ -992,7 +1071,7 @@ impl<'a> Sim<'a> {
                 // if it is a well-formed packet, report its fields; an answer it carries settles the matching debt
                 let decoded = { let fr = rc::frame(&bytes); if fr.frames.len() == 1 && fr.trailing == 0 { rc::decode(fr.frames[0].0, &fr.frames[0].1, self.v5).ok() } else { None } };
                 if let Some(p) = &decoded { let pid = p.pid(); if let Some(o) = self.b.owed.iter_mut().find(|o| !o.answered && o.kind == p.ptype && o.pid == pid) { o.answered = true; } }
-                let tn = if name.is_empty() { "RAW".to_string() } else { name.clone() };
+                let tn = if !name.is_empty() { name.clone() } else if let Some(p) = &decoded { rc::type_name(p.ptype).to_string() } else { "RAW".to_string() };
                 self.feed(decoded.as_ref(), &bytes, *legal, &tn);
             }
             Step::Advance { ms } => {
